@@ -125,7 +125,7 @@ func (e *Engine) UnregisterRoute(prefix enc.Name) error { return nil }
 func (e *Engine) ExecMgmtCmd(module string, cmd string, args any) error {
 	if module == barrierModule {
 		e.barrier <- struct{}{}
-		return errors.New("barrier")
+		return nil
 	}
 	a, _ := args.(*mgmt.ControlArgs)
 	if module == "rib" && e.failIn >= 0 {
